@@ -123,6 +123,18 @@ def order_scenarios(rng, n):
                                 {'op': 'apply_batch', 'tasks': [{'idx': i} for i in range(k)], 'dur': {'kind': 'map', 'map': {}, 'default': 0.0}, 'get_timeout': 30},
                                 {'op': 'resume', 'of': 0}],
                         'relax_shape': True})
+        if rng.random() < .15:
+            # apply submissions while order_tasks is off move the pool's task counter; order_tasks is then switched on for the live
+            # workers: the next call still numbers its chunks from 0
+            nj = rng.choice([2, 3, 4])
+            k = rng.choice([x for x in range(1, 2 * nj + 2) if x % nj])
+            ops = [{'op': 'apply_batch', 'tasks': [{'idx': i} for i in range(k)], 'dur': {'kind': 'map', 'map': {}, 'default': 0.01}, 'get_timeout': 30},
+                   {'op': 'set', 'what': 'order_tasks', 'value': True},
+                   {'op': rng.choice(['map', 'imap', 'map_unordered', 'imap_unordered']), 'n': rng.randint(nj + 1, 4 * nj), 'chunk_size': rng.choice([1, 2]), 'elem': 'scalar'}]
+            if rng.random() < .5:
+                ops.insert(0, {'op': rng.choice(['map', 'map_unordered']), 'n': rng.randint(2, 7), 'chunk_size': 1, 'elem': 'scalar'})
+            scs.append({'seed': rng.randint(0, 10 ** 6), 'pool': {'n_jobs': nj, 'start_method': rng.choice(['fork', 'threading']), 'keep_alive': True},
+                        'ops': ops, 'relax_shape': True, 'order_tasks_effective': True, 'setter_on_live_pool': True, 'all_valid': True})
         if rng.random() < .12:
             # order_tasks switched on again (it already is) while a lazy call is open: the numbering of that call goes on where it was
             nj = rng.choice([2, 3, 4])
